@@ -1127,6 +1127,16 @@ size_t ZSTD_decompressMultiFrame(ZSTD_DCtx* dctx,
                 continue; /* check next frame */
         }   }
 
+        if (ddict && dctx->ddict
+         && dctx->refMultipleDDicts == ZSTD_rmd_refMultipleDDicts && dctx->ddictSet) {
+            /* several DDicts are referenced : start from the one this frame requests,
+             * ZSTD_decodeFrameHeader() selects it too late to load its tables and content */
+            ZSTD_frameHeader zfh;
+            if (ZSTD_getFrameHeader_advanced(&zfh, src, srcSize, dctx->format) == 0) {
+                const ZSTD_DDict* const frameDDict = ZSTD_DDictHashSet_getDDict(dctx->ddictSet, zfh.dictID);
+                if (frameDDict) ddict = frameDDict;
+        }   }
+
         if (ddict) {
             /* we were called from ZSTD_decompress_usingDDict */
             FORWARD_IF_ERROR(ZSTD_decompressBegin_usingDDict(dctx, ddict), "");
